@@ -37,7 +37,7 @@ func ruleVD1(c *Ctx) {
 		fn := c.Name(cb)
 		n := 0
 		for _, call := range callsIn(cb) {
-			cal := call.Common().StaticCallee()
+			cal := calleeOf(call.Common())
 			if cal == nil || !commit[cal] {
 				continue
 			}
@@ -92,7 +92,7 @@ func ruleVD1(c *Ctx) {
 	}
 	// part b: outside callbacks: after a committing call returned nil
 	for _, f := range c.Fns {
-		if c.F.Callbacks[f] != nil || f == c.F.LockPrim || f.Pkg != c.Ergo && Outermost(f).Pkg != c.Ergo {
+		if c.F.Callbacks[f] != nil || c.F.isLockFn(f) || f.Pkg != c.Ergo && Outermost(f).Pkg != c.Ergo {
 			continue
 		}
 		if commit[f] && !isCommandLevel(c, f) {
@@ -104,9 +104,9 @@ func ruleVD1(c *Ctx) {
 			if !ok {
 				continue
 			}
-			cal := cv.Call.StaticCallee()
+			cal := calleeOf(&cv.Call)
 			committing := false
-			if cal != nil && cal == c.F.LockPrim {
+			if cal != nil && c.F.isLockFn(cal) {
 				for _, ls := range c.F.LockSites {
 					if ls.Call == call && ls.Callback != nil {
 						for g := range c.F.TransitiveCallees(ls.Callback) {
@@ -157,7 +157,7 @@ func ruleVD1(c *Ctx) {
 						if !canReachInstr(cv, sc) {
 							continue // produced on a branch exclusive with (or before) the commit
 						}
-						if cal := sc.Call.StaticCallee(); cal != nil && c.InModule(cal) {
+						if cal := calleeOf(&sc.Call); cal != nil && c.InModule(cal) {
 							src = c.Name(cal)
 						} else {
 							src = calleeFullName(&sc.Call)
@@ -170,7 +170,7 @@ func ruleVD1(c *Ctx) {
 					if replyIOSource(src) {
 						continue
 					}
-					if sc, ok := sv.(*ssa.Call); ok && c.replyOnlyHelper(sc.Call.StaticCallee(), 0) {
+					if sc, ok := sv.(*ssa.Call); ok && c.replyOnlyHelper(calleeOf(&sc.Call), 0) {
 						continue // a helper that only prints the reply: its error is the reply write's
 					}
 					if c.defensiveOnCallbackStore(f, r) {
@@ -187,7 +187,7 @@ func ruleVD1(c *Ctx) {
 }
 
 func calleeDesc(c *Ctx, cv *ssa.Call) string {
-	if cal := cv.Call.StaticCallee(); cal != nil {
+	if cal := calleeOf(&cv.Call); cal != nil {
 		return c.Name(cal)
 	}
 	return "the committing call"
@@ -202,7 +202,7 @@ func isCommandLevel(c *Ctx, f *ssa.Function) bool {
 		}
 	}
 	for _, cs := range callsIn(f) {
-		if cal := cs.Common().StaticCallee(); cal != nil {
+		if cal := calleeOf(cs.Common()); cal != nil {
 			for _, ls := range c.F.LockSites {
 				if ls.Fn == cal {
 					return true
@@ -250,7 +250,7 @@ func (c *Ctx) replyOnlyHelper(h *ssa.Function, d int) bool {
 				return false
 			}
 			name := calleeFullName(&sc.Call)
-			if cal := sc.Call.StaticCallee(); cal != nil && c.InModule(cal) {
+			if cal := calleeOf(&sc.Call); cal != nil && c.InModule(cal) {
 				name = c.Name(cal)
 				if !replyIOSource(name) && !c.replyOnlyHelper(cal, d+1) {
 					return false
@@ -308,7 +308,7 @@ func (c *Ctx) defensiveOnCallbackStore(f *ssa.Function, r *ssa.Return) bool {
 					continue
 				}
 				for _, call := range callsIn(ls.Callback) {
-					cal := call.Common().StaticCallee()
+					cal := calleeOf(call.Common())
 					if cal == nil || !commit[cal] {
 						continue
 					}
@@ -345,7 +345,7 @@ func guardNil(f *ssa.Function, callee *ssa.Function, pred func(args []ssa.Value)
 			return false
 		}
 		cl, _ := callOf(a.X)
-		if cl == nil || cl.Call.StaticCallee() != callee || callee == nil {
+		if cl == nil || calleeOf(&cl.Call) != callee || callee == nil {
 			return false
 		}
 		return pred == nil || pred(cl.Call.Args)
@@ -359,7 +359,7 @@ func guardBool(f *ssa.Function, callee *ssa.Function, want bool, pred func(args 
 			return false
 		}
 		cl, _ := callOf(a.X)
-		if cl == nil || cl.Call.StaticCallee() != callee || callee == nil {
+		if cl == nil || calleeOf(&cl.Call) != callee || callee == nil {
 			return false
 		}
 		return pred == nil || pred(cl.Call.Args)
@@ -501,7 +501,7 @@ func (c *Ctx) checkTaskProvenance(f *ssa.Function, base ssa.Value, fn, construct
 			}
 			// a private lookup helper (resolveSetTarget(graph, id, updates) -> (*Task, error)): what its success returns hand back
 			if cl, ok := x.Tuple.(*ssa.Call); ok {
-				if cal := cl.Call.StaticCallee(); cal != nil && cal.Blocks != nil && c.InModule(cal) && !c.opaqueHelper(cal) {
+				if cal := calleeOf(&cl.Call); cal != nil && cal.Blocks != nil && c.InModule(cal) && !c.opaqueHelper(cal) {
 					pushed := false
 					for _, r := range c.nonFailingReturns(cal) {
 						if x.Index < len(r.Results) {
